@@ -87,6 +87,13 @@ def cases(draw):
                     numeric = kind in ("Integer", "Decimal")
                     rows[y][x] = draw(st.sampled_from(WILD_NUMBERS if numeric and draw(st.booleans()) else WILD_TEXTS))
     text_columns = [i for i, f in enumerate(spec["fields"]) if f["type"] == "Text"]
+    if text_columns and draw(st.integers(0, 7)) == 0:
+        # a length no cell of this table reaches (and beyond what some applications put into a cell): every row is
+        # rejected - in all three formats alike - and the CID loads in all three
+        field = spec["fields"][draw(st.sampled_from(text_columns))]
+        field["length"], field["length_items"] = draw(st.sampled_from([
+            ("40000...", [[40000, None]]), ("32768...50000", [[32768, 50000]]), ("65536", [[65536, 65536]]),
+            ("32767...", [[32767, None]])]))
     if spec["fmt"].get("allowed") and len(rows) > header and text_columns and draw(st.booleans()):
         # a value of several lines in a row that is fine otherwise
         y = draw(st.integers(header, len(rows) - 1))
